@@ -27,6 +27,7 @@ class InterruptableThread(threading.Thread):
         self.daemon = True
         self.result = None
         self.exc_info = (None, None, None)
+        self.terminated = False
 
     def run(self):
         """
@@ -75,7 +76,19 @@ class InterruptableThread(threading.Thread):
 
         """
         self.exc_info = sys.exc_info()
+        self.terminated = True
         self.raise_exception(SystemExit)
+
+
+def was_terminated():
+    """
+    Whether the current thread is one that :py:func:`timeout` has given up on.
+    Such a thread keeps running until the asynchronous ``SystemExit`` reaches
+    it, but whoever called ``timeout`` has already moved on.
+    """
+    if threading is None:
+        return False
+    return getattr(threading.current_thread(), 'terminated', False)
 
 
 def timeout(duration, func, *args, **kwargs):
